@@ -5,7 +5,7 @@ import qrdata_gen as G
 ID = 'C07'
 COQ_TARGETS = ['Props/Properties_C07.vo', 'Spec/DeliverSpec.vo', 'Model/QrDataL2.vo']   # the last two: what the extraction needs, so that the failing-input search still runs when a proof is broken
 PROPS_FILES = ['Props/Properties_C07.v']
-THEOREMS = ['C07_plain_exact', 'C07_recoded_content', 'C07_qp_body', 'C07_wrap_line']
+THEOREMS = ['C07_plain_exact', 'C07_checker_accepts_plain', 'C07_recoded_content', 'C07_multipart_content', 'C07_header_fields', 'C07_qp_body', 'C07_wrap_line']
 ENGINES = [dict(name='qrdata', c_sources=['qrdata_h.c'], extract='Extract/Extract_qrdata.v', driver='qrdata_driver.ml',
                 accepts=lambda c: c.startswith('07 '), libs=())]
 RULE = G.RULE
